@@ -1,7 +1,7 @@
 (* Extraction of the executable C02 model (ExtrOcamlBasic only). *)
 From Coq Require Import ExtrOcamlBasic.
 From Coq Require Extraction.
-From LJT Require Import model.Huff model.Lossless model.LosslessBytes model.LosslessPixels gen.GenLossless proofs.LosslessGenProofs.
+From LJT Require Import model.Huff model.Lossless model.LosslessBytes model.LosslessLazy proofs.LosslessHuffProofs model.LosslessPixels gen.GenLossless proofs.LosslessGenProofs.
 Extraction Language OCaml.
 Extraction "x_c02.ml" diff_fn undiff_fn scale_down scale_up bits_of_prec enc_component dec_component
-  codec_component gen_tj_layout gen_dec_alpha dec_slots_of scatter gen_optimal_table make_c_derived encode_scan_bytes read_ecs emit_bits flush_bits enc_scan_rows dec_scan_rows codec_scan params_ok enc_rows dec_rows start_pass_ok bits_of get_bits encode_tok decode_tok encode_diff decode_diff canon_diff clear_low enc_after_row reset_predictor.
+  codec_component decode_scan_e2e encode_scan_e2e huff_dec make_d_derived gen_tj_layout gen_dec_alpha dec_slots_of scatter gen_optimal_table make_c_derived encode_scan_bytes read_ecs emit_bits flush_bits enc_scan_rows dec_scan_rows codec_scan params_ok enc_rows dec_rows start_pass_ok bits_of get_bits encode_tok decode_tok encode_diff decode_diff canon_diff clear_low enc_after_row reset_predictor.
